@@ -262,6 +262,30 @@ func slashPair(r *rand.Rand, t int, nonce uint64) (spec, spec) {
 	return a, b
 }
 
+// aliasPair: one body has a '/' in a text field, the other has the escaped spelling of it in the same place (or a
+// partially escaped one) — equal paths if the escaping were not itself injective.
+func aliasPair(r *rand.Rand, t int, nonce uint64) (spec, spec) {
+	a := honestSpec(r, t, nonce)
+	b := a.clone()
+	x := fmt.Sprint("p", r.Intn(9), "/", r.Intn(9), "%q")
+	var y string
+	switch r.Intn(3) {
+	case 0:
+		y = strings.ReplaceAll(x, "/", "%2F")
+	case 1:
+		y = strings.ReplaceAll(x, "%", "%25")
+	default:
+		y = strings.ReplaceAll(strings.ReplaceAll(x, "%", "%25"), "/", "%2F")
+	}
+	a.Compass, b.Compass = x, y
+	if t != tBatch && r.Intn(2) == 0 {
+		a.Compass, b.Compass = b.Compass, b.Compass
+		a.Receiver, b.Receiver = x, y
+		a.Client, b.Client = x, y
+	}
+	return a, b
+}
+
 type corpusEntry struct {
 	Name     string `json:"name"`
 	Victim   jspec  `json:"victim"`
@@ -506,7 +530,10 @@ func TestCorr(t *testing.T) {
 	for i := 0; i < nEff; i++ {
 		tt := r.Intn(3)
 		var a, b spec
-		switch r.Intn(5) {
+		switch r.Intn(6) {
+		case 5:
+			a, b = aliasPair(r, tt, 1)
+			doPair(build(a), build(b), "alias-pair", map[string]any{"kind": "pair", "a": toJ(a), "b": toJ(b)})
 		case 0: // F8b shape
 			a, b = slashPair(r, tt, 1)
 			doPair(build(a), build(b), "slash-pair", map[string]any{"kind": "pair", "a": toJ(a), "b": toJ(b)})
@@ -550,7 +577,11 @@ func TestCorr(t *testing.T) {
 		attacker := victim.clone()
 		attacker.Orch = 4
 		name := "agree"
-		switch r.Intn(6) {
+		switch r.Intn(7) {
+		case 6:
+			a, b := aliasPair(r, tt, 1)
+			victim, attacker, name = a, b, "alias-pair"
+			attacker.Orch = 4
 		case 0:
 		case 1, 2:
 			fn := fieldNames[r.Intn(len(fieldNames))]
